@@ -4,9 +4,13 @@
    Spec: Model/LoadSpec.v (expands, cut_of), Model/GlobSpec.v (gmatch). *)
 From Coq Require Import List NArith Bool Sorting.Sorted.
 From Okv Require Import Model.Glob Model.GlobSpec Model.Load Model.LoadSpec
-  Proofs.GlobProofs Proofs.PathOrder Proofs.LoadProofs.
+  Proofs.GlobProofs Proofs.PathOrder Proofs.LoadProofs Proofs.LoadSplit Proofs.LoadCycle.
 Import ListNotations.
 Open Scope N_scope.
+
+(* `loadc` is Loader::load_impl as it is, with its stack of files being loaded (the repair of the
+   include-cycle defect F6); `load` is the same recursion without that check.  The theorems
+   below are stated for `load`; C11_loader_agrees / C11_loader_iff_expands carry them over. *)
 
 (* whatever a load delivers before ending normally is the expansion of the root *)
 Theorem C11_load_sound : forall fs, wf_fs fs ->
@@ -137,3 +141,70 @@ Theorem C11_uncut_is_cut : forall fs root L,
   In (canonicalize root, map Ent L) fs -> cut_of fs root L.
 Proof. exact uncut_is_cut. Qed.
 Print Assumptions C11_uncut_is_cut.
+
+(* splitting step by step: moving a stretch B of the entries of the file p into a new file q and
+   leaving `include w` in its place — w (literal or glob, through any directories) standing for
+   exactly q, no older include matching q, the includes inside B keeping their meaning —
+   delivers the same entries in the same order from every root.  (One new file per step; an
+   include standing for several new files at once is covered by C11_split_invariant, whose
+   cut_of treats literal and glob includes alike.) *)
+Theorem C11_split_step : forall fs1 p q A B C w,
+  wf_fs fs1 ->
+  In (p, A ++ B ++ C) fs1 ->
+  ~ In q (map fst fs1) ->
+  canonicalize q = q ->
+  include_targets (extract fs1 p q A C B w) p w = inr [q] ->
+  (forall k content w' ts,
+     In (k, content) fs1 -> In (Inc w') content -> target_tokens k w' = Some ts ->
+     matches_with ts (path_string q) = false) ->
+  (forall w', In (Inc w') B -> target_tokens q w' = target_tokens p w') ->
+  forall root n out,
+    load n fs1 root = (out, Done) ->
+    exists N out', (forall m, (N <= m)%nat -> load m (extract fs1 p q A C B w) root = (out', Done)) /\
+                   map snd out' = map snd out.
+Proof. exact split_step. Qed.
+Print Assumptions C11_split_step.
+
+(* hence every tree obtained from the one-file ledger (C11_uncut_is_cut) by such steps is a cut of it *)
+Theorem C11_cut_step : forall fs1 p q A B C w,
+  wf_fs fs1 ->
+  In (p, A ++ B ++ C) fs1 ->
+  ~ In q (map fst fs1) ->
+  canonicalize q = q ->
+  include_targets (extract fs1 p q A C B w) p w = inr [q] ->
+  (forall k content w' ts,
+     In (k, content) fs1 -> In (Inc w') content -> target_tokens k w' = Some ts ->
+     matches_with ts (path_string q) = false) ->
+  (forall w', In (Inc w') B -> target_tokens q w' = target_tokens p w') ->
+  forall root L, cut_of fs1 root L -> cut_of (extract fs1 p q A C B w) root L.
+Proof. exact cut_step. Qed.
+Print Assumptions C11_cut_step.
+
+(* the loader with its cycle check: it never does more than the core ... *)
+Theorem C11_loader_refines : forall fs n st p o,
+  loadc n fs st p = (o, Done) -> load n fs p = (o, Done).
+Proof. exact loadc_refines_load. Qed.
+Print Assumptions C11_loader_refines.
+
+(* ... and the check never fires on a load that ends normally *)
+Theorem C11_loader_agrees : forall fs n p o,
+  load n fs p = (o, Done) -> exists N, forall f, (N <= f)%nat -> loadc f fs [] p = (o, Done).
+Proof. exact load_done_loadc. Qed.
+Print Assumptions C11_loader_agrees.
+
+Theorem C11_loader_iff_expands : forall fs, wf_fs fs ->
+  forall p out, (exists fuel, loadc fuel fs [] p = (out, Done)) <-> expands fs p out.
+Proof. exact loadc_iff_expands. Qed.
+Print Assumptions C11_loader_iff_expands.
+
+Theorem C11_loader_split_invariant : forall fs root L,
+  wf_fs fs -> cut_of fs root L ->
+  exists N, forall f, (N <= f)%nat -> exists out, loadc f fs [] root = (out, Done) /\ map snd out = L.
+Proof. exact loadc_split_invariant. Qed.
+Print Assumptions C11_loader_split_invariant.
+
+(* including a file that is being loaded is an error (LoadError::IncludeCycle), not a recursion *)
+Theorem C11_cycle_is_error : forall fs f st p,
+  In (canonicalize p) st -> loadc (S f) fs st p = ([], Failed IncludeCycle).
+Proof. exact cycle_is_error. Qed.
+Print Assumptions C11_cycle_is_error.
